@@ -39,6 +39,13 @@ class Models(object):
         self.hash_order = 'insertion'   # or 'symbolic'
         register_all(self)
 
+    def zero_sized(self, ty):
+        if 'iter::Empty' in ty:
+            return mk_iter('empty')
+        if ty.startswith('PhantomData') or 'marker::PhantomData' in ty:
+            return UNIT
+        return None
+
     def reg(self, self_ty, trait, method, fn):
         self.by_key[(self_ty, trait, method)] = fn
 
@@ -345,6 +352,20 @@ def it_next(m, itv, back=False):
             if y is None:
                 return mk_iter('zip', (na, nb)), None
             return mk_iter('zip', (na, nb)), Adt('(tuple)', 0, (x, y))
+        if k == 'take':
+            if s.state <= 0:
+                return itv, None
+            ns, x = it_next(m, s.src, back)
+            return mk_iter('take', ns, state=(s.state - 1 if x is not None else 0)), x
+        if k == 'skip':
+            cur, n = s.src, s.state
+            while n > 0:
+                cur, x = it_next(m, cur, False)
+                n -= 1
+                if x is None:
+                    return mk_iter('skip', cur, state=0), None
+            ns, x = it_next(m, cur, back)
+            return mk_iter('skip', ns, state=0), x
         if k == 'once':
             if s.state is None:
                 return itv, None
